@@ -17,7 +17,7 @@ import (
 func init() {
 	register(&explore.Prop{
 		ID: "C03", Level: levelMC, Explorer: "E1 input-space enumerator",
-		Rule: "MERGE(k,K) sweep, MERGE-LARGE and MERGE-ALIAS as C02 through the public Merge(...).WriteTo/DocumentNumbers API (default mode; the same Merger then writes a second time: same bytes, same mapping) and through the chunk-mode hook; oracle: one slice per input of the input's length, dropped => MaxInt64, survivors numbered 0,1,2.. in (segment, doc) order, Count == #survivors, and the `_id` stored value and `_id` term of every surviving old document are found at exactly the reported new number; " +
+		Rule: "MERGE(k,K) sweep, MERGE-LARGE and MERGE-ALIAS as C02 through the public Merge(...).WriteTo/DocumentNumbers API (default mode; the same Merger then writes a second time, and another Merger retries after a failed WriteTo with an unrelated Merger used in between: same bytes, same mapping) and through the chunk-mode hook; oracle: one slice per input of the input's length, dropped => MaxInt64, survivors numbered 0,1,2.. in (segment, doc) order, Count == #survivors, and the `_id` stored value and `_id` term of every surviving old document are found at exactly the reported new number; " +
 			"distinct = distinct (configuration, segment list, bitmaps); non-trivial = as C02",
 		Assumptions: commonAssumptions, Budget: qBudget, Run: runC03,
 	})
@@ -154,6 +154,29 @@ func runC03(c *explore.Ctx) {
 				c.Violate(scope, idx, sigOf("C03", "public-merge", "error: "+errText(msg, err)), errText(msg, err), cas)
 				return
 			}
+			// a FAILED WriteTo (the writer rejects everything) followed by a retry on the same Merger, with
+			// another Merger created and used in between: the retry's file and mapping must be right
+			var b3 []byte
+			var nums3 [][]uint64
+			var err3 error
+			msg3 := explore.Guard(func() {
+				m := ice.Merge(r.segs, r.drops, 16)
+				_, ferr := m.WriteTo(failingWriter{}, nil)
+				other := ice.Merge(r.segs[:1], nil2(1), 16)
+				var wo sliceWriter
+				other.WriteTo(&wo, nil)
+				var w3 sliceWriter
+				_, err3 = m.WriteTo(&w3, nil)
+				b3, nums3 = w3.b, m.DocumentNumbers()
+				_ = other.DocumentNumbers()
+				if ferr == nil && len(b) > 0 {
+					err3 = fmt.Errorf("WriteTo to a writer that rejects every write reported success")
+				}
+			})
+			if msg3 != "" || err3 != nil || !bytes.Equal(b, b3) || fmt.Sprint(nums) != fmt.Sprint(nums3) {
+				c.Violate(scope, idx, "C03/retry-after-failed-WriteTo-differs", fmt.Sprintf("after a failed WriteTo and an unrelated Merger in between: %s err=%v bytes equal=%v mapping first=%v retry=%v", msg3, err3, bytes.Equal(b, b3), nums, nums3), cas)
+				return
+			}
 			if err2 != nil || !bytes.Equal(b, b2) || fmt.Sprint(nums) != fmt.Sprint(nums2) {
 				c.Violate(scope, idx, "C03/second-WriteTo-differs", fmt.Sprintf("second WriteTo on the same Merger: err=%v bytes equal=%v mapping first=%v second=%v", err2, bytes.Equal(b, b2), nums, nums2), cas)
 				return
@@ -181,6 +204,10 @@ func runC03(c *explore.Ctx) {
 	aliasMerges(c, check)
 	againMerges(c, check)
 }
+
+type failingWriter struct{}
+
+func (failingWriter) Write(p []byte) (int, error) { return 0, fmt.Errorf("rejected") }
 
 type sliceWriter struct{ b []byte }
 
